@@ -234,6 +234,8 @@ func nontrivial(v Val) bool {
 		return x
 	case "err":
 		return !skipWhys[v.Why]
+	case "numstr":
+		return true
 	}
 	return false
 }
